@@ -52,6 +52,31 @@ CHECKS = {
              'partial: gap-creating writes are excluded from the theorem (known finding ctrio.write-past-eof-gap).',
         technique='Lean 4 refinement proof + model/implementation correspondence',
         design='§4 C12'),
+    'C03': dict(
+        text='Theorems: keyslot decision table (fixed zero/system key, crypto-method table), seed refusal and seeded '
+             'KeyY, secondary key = 3DS scrambler of (KeyX[secondary slot], (seeded) KeyY); the ExeFS range builder '
+             'tiles the region and colours a byte secondary-key exactly when it lies in a secondary-key file interval '
+             '(adjacent files, empty files, exact media-unit multiples); the merged ExeFS view is, byte by byte, '
+             'ciphertext xor the continuously-counted keystream under the key its range dictates; CTR/window views '
+             'by C01/C09 composition; plain modes return the raw window.  Tied to NCCHReader by differential '
+             'execution on images from an independent builder over the whole flag product, with an independent '
+             'plaintext monitor on every section view and nested ExeFS file.',
+        note=COMMON_NOTE + 'the independent Python NCCH builder (3dbrew layout, documented scrambler, ECB keystream) is '
+             'the specification of NCCH encryption; AES/SHA-256 are parameters; the constructor glue (header field '
+             'offsets, section table) is modelled and validated by correspondence, not proved.',
+        technique='Lean 4 proof (decision tables, interval colouring, composition of refinements) + model/implementation correspondence',
+        design='§4 C03'),
+    'C04': dict(
+        text='Theorems: chunk classifier facts (half-open membership, priority order, raw pass-through), header '
+             'rewrite touches exactly two bytes, no key is set up for a no-crypto image.  The FullDecrypted '
+             'get_data (chunk accumulation, per-region decryption, trimming) is modelled statement by statement and '
+             'tied to the code by differential execution of seek/read histories centred on section and chunk '
+             'boundaries, with the monitor = slice of the independent specification image, the declared size, and '
+             'a key-less re-parse of the image compared section by section.',
+        note=COMMON_NOTE + 'partial: the equality fullRead = slice(image) is established by correspondence and the '
+             'independent monitor, not yet by a Lean theorem; builder is the trusted specification.',
+        technique='Lean 4 model + classifier theorems + model/implementation correspondence with metamorphic re-parse',
+        design='§4 C04'),
     'C06': dict(
         text='Theorems: the reader walk (iterate_dir with its sibling loops and entry counters) on ANY metadata tables '
              'that represent a tree (decidable predicate repDir; any shape, depth, names) with distinct sibling keys '
@@ -95,7 +120,7 @@ CHECKS = {
              'all integer arguments.  The model is tied to pyctr.fileio/common by differential execution on generated '
              'stacks x op histories with an independent ordinary-file monitor.',
         note=COMMON_NOTE + 'io.BytesIO semantics are modelled (PyFile); theorems assume windows inside the inner file; '
-             'SplitFileMerger / CloseWrapper / reader open files are covered by model + correspondence (theorems in progress).',
+             'SplitFileMerger, CloseWrapper, reader open files and stacked crypto wrappers have their own refinement theorems; save-level files (DPFS/IVFC) are covered under C17/C18.',
         technique='Lean 4 refinement proof + model/implementation correspondence',
         design='§4 C09'),
 }
